@@ -536,14 +536,11 @@ func (k c04) Run(c *mon.Ctx, workload string, i int64) {
 		c.Violate(r.Class+":"+workload, fmt.Sprintf("%s\n--- program\n%s", r.Detail, src), info)
 		return
 	}
-	if (workload == "alias-programs" || workload == "self-insertion" || workload == "literal-fresh") && mo.Unspecified == "" && !mo.Shared.MapOrderDependent {
-		// values built by one run (literals, containers) must not leak into
-		// the next run of the same loaded script
-		real2 := drive.PointFromModel(mp)
-		ro2 := drive.RunV1(script, real2, &drive.RunState{Budget: realBudget(mo.Shared.Steps)})
-		c.Eval(1)
-		if r := compareRun(ro2, mo, cmpOpts{Point: model, RealPoint: real2}); r != nil {
-			c.Violate("second-run-differs:"+r.Class, fmt.Sprintf("the SECOND run of the same loaded script differs from the reference: %s\n--- program\n%s", r.Detail, src), info)
+	// values built by one run (literals, containers) must not leak into the
+	// next run of the same loaded script, nor into a second load of the text
+	heavy := workload == "alias-programs" || workload == "self-insertion" || workload == "literal-fresh"
+	if heavy || i%5 == 0 {
+		if !againV1(c, script, name, src, mp, model, mo, heavy, ":"+workload, info) {
 			return
 		}
 	}
